@@ -131,6 +131,7 @@ type Exec struct {
 	pkgInit   map[*ssa.Package]int // 0 none, 1 running, 2 done
 	emptyStr  *StrV
 	strCache  map[string]*StrV
+	pools     map[*Value][]Value // sync.Pool contents (LIFO)
 	constMem  map[*ssa.Const]Value
 	effects   int64 // counter of side effects / decisions, for the lasso detector
 	depth     int
